@@ -2,6 +2,7 @@ import OmplModel.Proofs.SpaceInterpExamples
 import OmplModel.Proofs.SpaceInterpExamplesGeo
 import OmplModel.Generated.RwSets
 import OmplModel.Proofs.SpaceInterpWeights
+import OmplModel.Proofs.SpaceInterpAlias
 /-!
 C07 — property theorems for `StateSpace::interpolate` (model: `Model/SpaceInterp.lean`).
 
@@ -20,11 +21,12 @@ the exact range `[0, π]` (`kleinRange`; the coded bounds predicate has a ±eps 
 `u ∈ [-eps, 0)` crosses the seam at t = 0), Klein `t = 1` on the seam branch needs `0 < to.u < π`.
 Re-parameterisation: rv, so2, time, torus, sphere, compounds, wrapper (`interp_reparam`); SO(3)
 leaves too when both legs used are above the clamp threshold of `arcLength` (`interp_reparam_so3`,
-section 8); Mobius / Klein only away from the seam (cylinder branch, section 9); NOT discrete.
+section 8); Mobius everywhere incl. across the seam (`mobius_interp_reparam`, `interp_reparam_mobius`);
+Klein only away from the seam (cylinder branch, section 9); NOT discrete.
 Proportional distance: the `geodesic false` spaces (rv, so2, time, torus, weighted compounds,
 wrapper); with SO(3) leaves (`geodesic true`) only outside the clamp band of the coded distance
 (`interp_dist_prop_so3_partial`; inside the band it FAILS as coded: `so3_interp_dist_prop_fails`).
-Mobius / Klein re-parameterisation across the seam: compared against the implementation only.
+Klein re-parameterisation across the seam: compared against the implementation only.
 -/
 open scoped OmplModel.SpaceInterp.RealNum
 attribute [-instance] OmplModel.Num.instOfNat
@@ -139,6 +141,42 @@ example : lerp (1 : ℝ) 3 0 = 1 := lerp_zero _ _
 example : lerp (1 : ℝ) 3 1 = 3 := lerp_one _ _
 example : lerp (lerp (1 : ℝ) 3 (1 / 2)) 3 (1 / 2) = lerp 1 3 (1 / 2 + (1 - 1 / 2) * (1 / 2)) :=
   lerp_reparam _ _ _ _
+
+/-- [AF] a coordinate that is equal in `from` and `to` stays exactly there, for ANY number type in which
+`a - a = z`, `z * t = z`, `a + z = a` hold for these operands — in IEEE double: `z = +0` for finite `a`,
+`0 * t = 0` for finite `t ≥ 0`, `a + 0 = a` — so it holds of the `Float` instantiation the driver runs (the
+three IEEE facts are executed by the correspondence and demanded of the implementation by the
+`fixed-coordinate` clause of the oracle; Lean's kernel cannot evaluate `Float`).  A reformulation such as
+`(1-t)*from + t*to` does not have this property: it moves a coordinate sitting on a wall of the box. -/
+theorem lerp_fixed_of_ieee_laws {α : Type} [Num α] (a t z : α)
+    (hsub : a - a = z) (hmul : z * t = z) (hadd : a + z = a) : lerp a a t = a := by
+  simp only [lerp, hsub, hmul, hadd]
+
+example (t : ℝ) : lerp (5 : ℝ) 5 t = 5 :=
+  lerp_fixed_of_ieee_laws 5 t 0 (by norm_num) (by norm_num) (by norm_num)
+
+/-- [EX] R^n: `from[i] = to[i]` ⇒ `interpolate(from,to,t)[i] = from[i]` for every `t` (motions along a
+wall of the box, coincident states) -/
+theorem rv_interpolate_fixed_coordinate (xs ys : List ℝ) (t : ℝ) (i : Nat)
+    (hlen : xs.length = ys.length) (h : xs[i]? = ys[i]?) : (rvInterp xs ys t)[i]? = xs[i]? := by
+  induction xs generalizing ys i with
+  | nil => cases ys <;> simp [rvInterp]
+  | cons x xs ih =>
+    cases ys with
+    | nil => simp at hlen
+    | cons y ys =>
+      cases i with
+      | zero =>
+        simp only [List.getElem?_cons_zero, Option.some.injEq] at h
+        simp only [rvInterp, List.getElem?_cons_zero, Option.some.injEq, h, SpaceInterp.lerp_eq]
+        ring
+      | succ i =>
+        simp only [List.getElem?_cons_succ] at h
+        simp only [rvInterp, List.getElem?_cons_succ]
+        exact ih ys i (by simpa using hlen) h
+
+example (t : ℝ) : (rvInterp [5, -3] [5, 4] t)[0]? = some (5 : ℝ) :=
+  rv_interpolate_fixed_coordinate [5, -3] [5, 4] t 0 rfl rfl
 
 /-- [EX] R^n: the as-coded bounds predicate (±eps slack) is convex, for any bounds vectors -/
 theorem rv_inbounds_convex (xs ys lo hi : List ℝ) (t : ℝ) (hx : rvInB xs lo hi = true)
@@ -474,7 +512,7 @@ example : dist nested3 nested3A (interpolate nested3 nested3A nested3B (2 / 3))
   interp_dist_prop_so3_partial _ _ _ _ nested3_geo.1 nested3A_wt nested3B_wt nested3A_inB nested3B_inB
     nested3A_unit nested3_outsideBand (by norm_num) (by norm_num)
 
-/-! ## 9. Mobius / Klein re-parameterisation away from the seam (cylinder branch) -/
+/-! ## 9. Mobius re-parameterisation (cylinder branch, across the seam, compounds); Klein away from the seam -/
 
 /-- [EX] Mobius, `|Δu| ≤ π`: exact re-parameterisation (the second leg stays in the cylinder branch) -/
 theorem mobius_interp_reparam_cylinder (imax rad u1 v1 u2 v2 s u : ℝ)
@@ -498,6 +536,70 @@ example : interpolate (.mobius 1 2)
         (.ccons (.so2 1) (.ccons (.rv [-1]) .cnil)) (1 / 3 + (1 - 1 / 3) * (1 / 2)) :=
   mobius_interp_reparam_cylinder _ _ _ _ _ _ _ _ zero_inB one_inB
     (by rw [sub_zero, abs_one]; linarith [pi_gt_three])
+    (by norm_num) (by norm_num) (by norm_num) (by norm_num)
+
+/-- [EX] Mobius ACROSS the seam, `|Δu| > π`: exact re-parameterisation (v arbitrary reals).  If the
+point at `s` has not crossed, the second leg is the seam branch again with literally the same mirror
+test; if it has crossed, the second leg is the cylinder branch and the direct evaluation is crossed too. -/
+theorem mobius_interp_reparam_seam (imax rad u1 v1 u2 v2 s u : ℝ)
+    (hu1 : so2InB u1 = true) (hu2 : so2InB u2 = true) (hseam : ¬ |u2 - u1| ≤ π)
+    (hs0 : 0 ≤ s) (hs1 : s ≤ 1) (hu0 : 0 ≤ u) (hu1' : u ≤ 1) :
+    interpolate (.mobius imax rad)
+        (interpolate (.mobius imax rad) (.ccons (.so2 u1) (.ccons (.rv [v1]) .cnil))
+          (.ccons (.so2 u2) (.ccons (.rv [v2]) .cnil)) s)
+        (.ccons (.so2 u2) (.ccons (.rv [v2]) .cnil)) u
+      = interpolate (.mobius imax rad) (.ccons (.so2 u1) (.ccons (.rv [v1]) .cnil))
+          (.ccons (.so2 u2) (.ccons (.rv [v2]) .cnil)) (s + (1 - s) * u) := by
+  rw [so2InB_iff] at hu1 hu2
+  simp only [interpolateW,
+    mobiusInterp_reparam_seam (v1 := v1) (v2 := v2) hu1.1 hu1.2 hu2.1 hu2.2 hseam hs0 hs1 hu0 hu1']
+
+example : interpolate (.mobius 1 2)
+      (interpolate (.mobius 1 2) (.ccons (.so2 3) (.ccons (.rv [1]) .cnil))
+        (.ccons (.so2 (-3 : ℝ)) (.ccons (.rv [-1]) .cnil)) (1 / 3))
+      (.ccons (.so2 (-3)) (.ccons (.rv [-1]) .cnil)) (1 / 2)
+    = interpolate (.mobius 1 2) (.ccons (.so2 3) (.ccons (.rv [1]) .cnil))
+        (.ccons (.so2 (-3)) (.ccons (.rv [-1]) .cnil)) (1 / 3 + (1 - 1 / 3) * (1 / 2)) :=
+  mobius_interp_reparam_seam _ _ _ _ _ _ _ _ three_inB.1 three_inB.2 three_seam
+    (by norm_num) (by norm_num) (by norm_num) (by norm_num)
+
+/-- [EX] Mobius: exact re-parameterisation for every pair of in-bounds states (no branch hypothesis) -/
+theorem mobius_interp_reparam (imax rad u1 v1 u2 v2 s u : ℝ)
+    (hu1 : so2InB u1 = true) (hu2 : so2InB u2 = true)
+    (hs0 : 0 ≤ s) (hs1 : s ≤ 1) (hu0 : 0 ≤ u) (hu1' : u ≤ 1) :
+    interpolate (.mobius imax rad)
+        (interpolate (.mobius imax rad) (.ccons (.so2 u1) (.ccons (.rv [v1]) .cnil))
+          (.ccons (.so2 u2) (.ccons (.rv [v2]) .cnil)) s)
+        (.ccons (.so2 u2) (.ccons (.rv [v2]) .cnil)) u
+      = interpolate (.mobius imax rad) (.ccons (.so2 u1) (.ccons (.rv [v1]) .cnil))
+          (.ccons (.so2 u2) (.ccons (.rv [v2]) .cnil)) (s + (1 - s) * u) := by
+  rw [so2InB_iff] at hu1 hu2
+  simp only [interpolateW,
+    mobiusInterp_reparam (v1 := v1) (v2 := v2) hu1.1 hu1.2 hu2.1 hu2.2 hs0 hs1 hu0 hu1']
+
+example : interpolate (.mobius 1 2)
+      (interpolate (.mobius 1 2) (.ccons (.so2 3) (.ccons (.rv [1]) .cnil))
+        (.ccons (.so2 (-3 : ℝ)) (.ccons (.rv [-1]) .cnil)) (1 / 3))
+      (.ccons (.so2 (-3)) (.ccons (.rv [-1]) .cnil)) (1 / 2)
+    = interpolate (.mobius 1 2) (.ccons (.so2 3) (.ccons (.rv [1]) .cnil))
+        (.ccons (.so2 (-3)) (.ccons (.rv [-1]) .cnil)) (1 / 3 + (1 - 1 / 3) * (1 / 2)) :=
+  mobius_interp_reparam _ _ _ _ _ _ _ _ three_inB.1 three_inB.2
+    (by norm_num) (by norm_num) (by norm_num) (by norm_num)
+
+/-- [EX] re-parameterisation for compounds with Mobius and SO(3) leaves (`reparamOk4`: everything except
+discrete and Klein): hypotheses as `interp_reparam_so3` -/
+theorem interp_reparam_mobius (sp : Space ℝ) (a b : St ℝ) (s u : ℝ) (hsp : reparamOk4 sp = true)
+    (hwa : wellTyped sp a = true) (hwb : wellTyped sp b = true)
+    (hba : inBounds sp a = true) (hbb : inBounds sp b = true)
+    (hub : unitQuats sp b) (hok : so3ReparamOk sp a b s)
+    (hs0 : 0 ≤ s) (hs1 : s ≤ 1) (hu0 : 0 ≤ u) (hu1 : u ≤ 1) :
+    interpolate sp (interpolate sp a b s) b u = interpolate sp a b (s + (1 - s) * u) :=
+  interpolate_reparam_mobius sp a b s u hsp hwa hwb hba hbb hub hok hs0 hs1 hu0 hu1
+
+-- [Mobius (states across its seam), SE(3)]
+example : interpolate mobSp (interpolate mobSp mobA mobB (1 / 3)) mobB (1 / 2)
+    = interpolate mobSp mobA mobB (1 / 3 + (1 - 1 / 3) * (1 / 2)) :=
+  interp_reparam_mobius _ _ _ _ _ mobSp_ok mobA_wt mobB_wt mobA_inB mobB_inB mobB_unit mob_reparamOk
     (by norm_num) (by norm_num) (by norm_num) (by norm_num)
 
 /-- [EX] Klein, `|Δu| ≤ π/2`: exact re-parameterisation (the second leg stays in the cylinder branch) -/
@@ -581,5 +683,23 @@ theorem interp_alias_safe :
 example : OmplModel.Generated.RwSets.bodies.length ≥ 7 := by decide
 example : Alias.safe [.rd .to 1, .rd .from 1, .wr 1, .rd .out 1, .rd .from 1, .wr 1] = false := by decide
 example : Alias.modesAgree [.rd .to 1, .rd .from 1, .wr 1, .rd .out 1, .rd .from 1, .wr 1] = false := by decide
+
+/-- [AF] soundness of the syntactic check, for EVERY body (not only the generated table): a `safe`
+access sequence writes the same values whether the output is a distinct object, `from`, or `to`.
+(Proof: simulation invariant between the un-aliased and the aliased run — equal `seen`, equal written
+output cells, unwritten aliased cells still hold the input's value — `Proofs/SpaceInterpAlias.lean`.)
+So `interp_alias_safe` only needs its `safe` half; the `modesAgree` half is implied. -/
+theorem alias_safe_sound (body : List Alias.Acc) (h : Alias.safe body = true) :
+    Alias.modesAgree body = true := Alias.safe_modesAgree body h
+
+/-- non-vacuity: the long SO(2) path (write, read back, write again) is safe, hence its modes agree;
+and every generated body gets `modesAgree` from `safe` alone -/
+example : Alias.modesAgree
+    [.rd .to 1, .rd .from 1, .rd .from 1, .wr 1, .rd .out 1, .rd .out 1, .rd .out 1, .wr 1] = true :=
+  alias_safe_sound _ (by decide)
+example : ∀ b ∈ OmplModel.Generated.RwSets.sO2StateSpace, Alias.modesAgree b = true := by
+  intro b hb
+  apply alias_safe_sound
+  revert b; decide
 
 end OmplModel.Props.C07
